@@ -50,7 +50,7 @@ func ruleHandleEvent(c *Ctx) {
 	hDelete := p.Method("rescache.ResourceSubscription.handleEventDelete")
 	sp := &Spec{}
 	sp.Classify = func(t *Tracer, fr *Frame, in ssa.Instruction) []Ev {
-		if st, ok := isStoreTo(in, fEvVer); ok {
+		if st, ok := isStoreToT(t, fr, in, fEvVer); ok {
 			if f, _ := fieldLoad(st.Val); f == fVer {
 				return []Ev{{Kind: "stamp"}}
 			}
@@ -448,7 +448,7 @@ func ruleResetProtocol(c *Ctx) {
 	createGet := p.PkgFunc("codec.CreateGetRequest")
 	sp := &Spec{}
 	sp.Classify = func(t *Tracer, fr *Frame, in ssa.Instruction) []Ev {
-		if st, ok := isStoreTo(in, fReset); ok {
+		if st, ok := isStoreToT(t, fr, in, fReset); ok {
 			if b, ok := constBool(st.Val); ok {
 				return []Ev{{Kind: fmt.Sprintf("resetting=%v", b)}}
 			}
@@ -753,7 +753,7 @@ func ruleUnregister(c *Ctx) {
 	c.inst(1)
 	sp := &Spec{}
 	sp.Classify = func(t *Tracer, fr *Frame, in ssa.Instruction) []Ev {
-		if st, ok := isStoreTo(in, fBase); ok && isNilConst(st.Val) {
+		if st, ok := isStoreToT(t, fr, in, fBase); ok && isNilConst(st.Val) {
 			return []Ev{{Kind: "base=nil"}}
 		}
 		if call, ok := isBuiltinCall(in, "delete"); ok {
@@ -955,7 +955,7 @@ func ruleQueryLock(c *Ctx) {
 				return []Ev{{Kind: "range-queries"}}
 			}
 		}
-		if _, ok := isStoreTo(in, fQueries); ok {
+		if _, ok := isStoreToT(t, fr, in, fQueries); ok {
 			return []Ev{{Kind: "queries="}}
 		}
 		if _, ok := isBuiltinCall(in, "delete"); ok {
